@@ -5,6 +5,8 @@ import json, os, shutil, sys, re
 src, sid, prop, change, needs, caught, log = sys.argv[1:8]
 V = os.path.dirname(os.path.dirname(os.path.abspath(__file__)))
 d = os.path.join(V, "seeded", sid)
+if os.path.exists(os.path.join(d, 'meta.json')):
+    sys.exit('refusing to overwrite an existing seeded change: %s' % d)
 os.makedirs(d, exist_ok=True)
 for f in ("patch.diff", "seeded_demo.rs", "notes.md"):
     if os.path.exists(os.path.join(src, f)):
